@@ -21,7 +21,7 @@ Import ListNotations.
 From Verif.lib Require Import Term.
 From Verif.model Require Import Slurper MsgFilter PeerRead C43Check.
 From Verif.gen Require Import TagLimits.
-From Verif.proofs Require Import SlurperProofs MsgFilterProofs PeerProofs C43SpecProofs.
+From Verif.proofs Require Import SlurperProofs MsgFilterProofs PeerProofs C43SpecProofs C43NetSpecProofs.
 Open Scope N_scope.
 
 (* ---------------------------------------------------------------- slurper *)
@@ -157,6 +157,17 @@ Theorem C43_no_duplicate_delivery : forall k n mx flt pre i1 fr1 mid i2 fr2 post
   forall len, nth_error res (List.length pre + 1 + List.length mid) <> Some (PDelivered len).
 Proof. exact net_no_duplicate_fresh. Qed.
 Print Assumptions C43_no_duplicate_delivery.
+
+(* The executable net-level specification evaluated by [check] on what the real readLoops did
+   holds of the model for every filter geometry, number of peers and schedule: besides the two
+   statements above it says that a connection is torn down only for an over-long message or a
+   reader error, and that a known tag's message is dropped only as a duplicate of something
+   seen before (no false positive at this level). *)
+Theorem C43_net_spec : forall n mx k flt0 sched,
+  make_filter (D:=list N) n mx = Some flt0 ->
+  spec_net (N.of_nat n) mx k (obs_steps sched (net_run (repeat new_peer k) flt0 sched)) = true.
+Proof. exact spec_net_model. Qed.
+Print Assumptions C43_net_spec.
 
 (* ---------------------------------------------------------------- non-vacuity *)
 
